@@ -391,7 +391,26 @@ import (
 //@   ensures  r1 != nil ==> r0 == nil && (offset + 20 >= len(b.mem) || offset + 20 + mem32(b.mem, offset) > len(b.mem))   // fails only when it must
 //@   modifies nothing
 
+// recycleBuffers gives back a whole chain: every slice it holds (the argument, then each successor it reads)
+// is recycled exactly once before it is dropped, and the successor's offset is taken from the header BEFORE the
+// slice is recycled (recycling resets the header). ghost owed: a slice is in hand and not yet recycled;
+// ghost nxt: the successor offset read from the header of the slice in hand.
 //@ func (*bufferManager).recycleBuffers
+//@   nilable
+//@   requires b != nil
+//@   requires[C09,C02] len(b.mem) < 4294967296 && (slice != nil && slice.isFromShm ==> slice.bufferHeader != nil && len(slice.bufferHeader) >= 20)
+//@   ghost var owed bool = true
+//@   ghost var nxt int = 0 - 1
+//@   at call? (bufferHeader).nextBufferOffset#0 ghost[C09,C02] nxt := ite(owed, r0, 0 - 1)
+//@   at call? (*bufferManager).recycleBuffer#0 check[C09,C02] owed && a1 == slice
+//@   at call? (*bufferManager).recycleBuffer#0 ghost[C09,C02] owed := false
+//@   at call? (*bufferManager).recycleBuffer#1 check[C09,C02] owed && a1 == slice && nxt == nextSliceOffset && nxt >= 0
+//@   at call? (*bufferManager).recycleBuffer#1 ghost[C09,C02] owed := false
+//@   at call? (*bufferManager).readBufferSlice#0 check[C09,C02] !owed && a1 == nxt
+//@   at call? (*bufferManager).readBufferSlice#0 ghost[C09,C02] owed := r1 == nil
+//@   at call? (*bufferManager).readBufferSlice#0 ghost[C09,C02] nxt := 0 - 1
+//@   exit[C09,C02] old(slice != nil && slice.isFromShm) ==> !owed
+//@   loop 0 invariant[C09,C02] owed && slice != nil && nxt == 0 - 1 && slice.bufferHeader != nil && len(slice.bufferHeader) >= 20
 //@   modifies heap
 
 // --- handshake phase (blocking reads on the raw connection) ---
